@@ -216,7 +216,9 @@ def _domain_under_negation() -> Callable[[], None]:
                 for cond in condition:
                     if cond.ast_type == ASTType.Literal and cond.sign == Sign.Negation and dynamic(cond):
                         continue
-                    if cond.ast_type == ASTType.ConditionalLiteral and any(dynamic(c) for c in cond.condition):
+                    if cond.ast_type == ASTType.ConditionalLiteral and (
+                        any(dynamic(c) for c in cond.condition) or (cond.literal.sign == Sign.Negation and dynamic(cond.literal))
+                    ):
                         continue
                     kept.append(cond)
                 new_rules.append((head, kept))
